@@ -200,6 +200,15 @@ func callsGen(r *rand.Rand, params map[string]any) callsScenario {
 		c.CtxExec = r.IntN(4) == 0
 		sc.Calls = append(sc.Calls, c)
 	}
+	if r.IntN(6) == 0 && len(sc.Calls) > 1 {
+		// two bursts separated by a long quiet period (longer than the servers' idle-worker collection and the
+		// clients' ping interval): whatever the servers and connections tidy up while idle must not change how the
+		// second burst is served
+		gap := int64(61_000_000 + r.IntN(60_000_000))
+		for i := len(sc.Calls) / 2; i < len(sc.Calls); i++ {
+			sc.Calls[i].StartUs += gap
+		}
+	}
 	if faulty {
 		nf := r.IntN(4)
 		for i := 0; i < nf; i++ {
@@ -1117,7 +1126,7 @@ func (r *callsRun) body(s simI) {
 		cs := cs
 		vrt.Go(fmt.Sprintf("call%d", cs.idx), func() { r.doCall(cs) })
 		if cs.spec.Handler == "gate" && cs.spec.GateUs > 0 {
-			s.After(time.Duration(cs.spec.GateUs)*time.Microsecond, func() { r.openGate(cs) })
+			s.After(time.Duration(cs.spec.StartUs+cs.spec.GateUs)*time.Microsecond, func() { r.openGate(cs) })
 		}
 	}
 	// faults are applied by one goroutine in time order (Close/Shutdown are program code)
@@ -1157,7 +1166,14 @@ func (r *callsRun) body(s simI) {
 		return cond()
 	}
 	allDone := func() bool { return r.pending() == 0 }
-	if !wait("waiting for calls", 2*time.Minute, allDone) {
+	var lastStart int64
+	for _, cs := range r.calls {
+		lastStart = max(lastStart, cs.spec.StartUs)
+	}
+	if lastStart > 1_000_000 {
+		s.Count("probe.second_burst_after_idle_period")
+	}
+	if !wait("waiting for calls", 2*time.Minute+time.Duration(lastStart)*time.Microsecond, allDone) {
 		// whatever is still gated is released now
 		r.setPhase("release gates")
 		for _, cs := range r.calls {
